@@ -56,14 +56,14 @@ var errCreate = errors.New("scripted create failure")
 
 // Sys couples a front-end with the reference model and the callback ledger.
 type Sys struct {
-	Kind    string // cache | ecache | expirable
-	Cap     int
-	Keys    int // number of inner keys
-	front   Front
-	model   []ent // recency order, oldest first
-	serial  int
-	script  []int // outcomes for the create calls of the current op
-	calls   []call
+	Kind   string // cache | ecache | expirable
+	Cap    int
+	Keys   int // number of inner keys
+	front  Front
+	model  []ent // recency order, oldest first
+	serial int
+	script []int // outcomes for the create calls of the current op
+	calls  []call
 }
 
 // inner maps an outer key to the inner key (ECache: two outer keys per inner key).
@@ -92,9 +92,12 @@ func (i item) GetExpiresAt() time.Time { return i.exp }
 
 type cacheFront struct{ c *lru.Cache[int, int] }
 
-func (f cacheFront) GetOrCreate(pk int) (int, bool, error) { v, err := f.c.GetOrCreate(pk); return v, false, err }
-func (f cacheFront) Remove(pk int) bool                    { return f.c.Remove(pk) }
-func (f cacheFront) Clear() int                            { return f.c.Clear() }
+func (f cacheFront) GetOrCreate(pk int) (int, bool, error) {
+	v, err := f.c.GetOrCreate(pk)
+	return v, false, err
+}
+func (f cacheFront) Remove(pk int) bool { return f.c.Remove(pk) }
+func (f cacheFront) Clear() int         { return f.c.Clear() }
 func (f cacheFront) Stats() (int, int, int, int, []string, string, int) {
 	return lru.VerifItems(f.c.ECache)
 }
@@ -102,15 +105,20 @@ func (f cacheFront) FirstCost() int { return lru.VerifFirstCost(f.c.ECache) }
 
 type ecacheFront struct{ c *lru.ECache[int, int, int] }
 
-func (f ecacheFront) GetOrCreate(pk int) (int, bool, error) { v, err := f.c.GetOrCreate(pk); return v, false, err }
-func (f ecacheFront) Remove(pk int) bool                    { return f.c.Remove(pk) }
-func (f ecacheFront) Clear() int                            { return f.c.Clear() }
+func (f ecacheFront) GetOrCreate(pk int) (int, bool, error) {
+	v, err := f.c.GetOrCreate(pk)
+	return v, false, err
+}
+func (f ecacheFront) Remove(pk int) bool { return f.c.Remove(pk) }
+func (f ecacheFront) Clear() int         { return f.c.Clear() }
 func (f ecacheFront) Stats() (int, int, int, int, []string, string, int) {
 	return lru.VerifItems(f.c)
 }
 func (f ecacheFront) FirstCost() int { return lru.VerifFirstCost(f.c) }
 
-type expFront struct{ c *lru.ExpirableCache[int, item] }
+type expFront struct {
+	c *lru.ExpirableCache[int, item]
+}
 
 func (f expFront) GetOrCreate(pk int) (int, bool, error) {
 	it, err := f.c.GetOrCreate(pk)
